@@ -134,9 +134,25 @@ func runTplPurity(c *Ctx, src string, maps []map[string]string, goroutines int) 
 		}
 		before := encTplTree(t.ResultTokens())
 		ref := make([]string, len(maps))
+		mapsBefore := make([]string, len(maps))
 		for i, m := range maps {
+			mapsBefore[i] = varsStr(m)
 			r, err := t.EvaluateWithVariables(m)
 			ref[i] = r + "|" + errCode(err)
+		}
+		// repeat in the opposite order: equal inputs, equal renderings; the maps are untouched
+		for round := 0; round < 2; round++ {
+			for i := len(maps) - 1; i >= 0; i-- {
+				r, err := t.EvaluateWithVariables(maps[i])
+				if r+"|"+errCode(err) != ref[i] && note == "" {
+					note = fmt.Sprintf("rendering #%d under map %d differs from the first one", round+2, i)
+				}
+			}
+		}
+		for i, m := range maps {
+			if varsStr(m) != mapsBefore[i] && note == "" {
+				note = fmt.Sprintf("rendering modified the caller's variable map %d: %s -> %s", i, mapsBefore[i], varsStr(m))
+			}
 		}
 		var wg sync.WaitGroup
 		errs := make([]string, goroutines)
@@ -239,6 +255,20 @@ func propC19(c *Ctx) {
 		runPurityCase(c, expr, sets, 16)
 		ast := g.genTpl(c.Rng.Intn(3), 1+c.Rng.Intn(4))
 		runTplPurity(c, printTpl(ast), []map[string]string{randVars(c), randVars(c), randVars(c)}, 16)
+	}
+	// every binary operator with variables of every type on both sides, evaluated repeatedly
+	opLex := []string{"+", "-", "*", "/", "%", "^", "<<", ">>", "=", "<>", ">", "<", ">=", "<=", "AND", "OR", "XOR", "IN", "NOT IN"}
+	for _, o := range opLex {
+		for _, av := range evalVarValues {
+			bv := evalVarValues[c.Rng.Intn(len(evalVarValues))]
+			runPurityCase(c, "a "+o+" b", [][]binding{{{"a", av}, {"b", bv}}, {{"a", bv}, {"b", av}}}, 4)
+			runPurityCase(c, "(a "+o+" 2) + a", [][]binding{{{"a", av}}, {{"a", bv}}}, 0)
+		}
+	}
+	for _, f := range []string{"Min(a, b)", "Max(a, b, a)", "Sum(a, b)", "If(a, a, b)", "Choose(1, a, b)", "Abs(a)", "Array(a, b)[0]", "-a", "NOT a", "a[0]"} {
+		for _, av := range evalVarValues {
+			runPurityCase(c, f, [][]binding{{{"a", av}, {"b", evalVarValues[c.Rng.Intn(len(evalVarValues))]}}, {{"a", vInt(1)}, {"b", av}}}, 4)
+		}
 	}
 	exprs := []string{"a << 1", "a <= b", "a <> b", "Max(a, b) + 1", "'x' + a", "a[0]", "a / 0", "1 +"}
 	tpls := []string{"{{a}}", "x{{#a}}y{{/a}}", "{{{a}}}<=", "{{^a}}n{{/a}}"}
